@@ -132,14 +132,13 @@ def run(ctx):
     bad = sorted(p for p in prims if '::complete::' in p)
     ctx.add('G3.streaming-primitives', 'lber::parse', '', not bad, 'non-streaming nom primitives in the TLV parser (a short buffer would be an error or a truncated value): %s' % bad)
     ctx.floor('G3', 'nom primitives in the TLV parser cone', len(prims), 3)
+    # the streaming entry point, on its paths per class of header (rules/wrapper.py, check_parser_entry): it is the TLV parser applied
+    # to the caller's input; a test of its own may answer Incomplete only where the element cannot be complete (the empty buffer, an
+    # identifier octet alone, a length field that has not arrived), and nothing but Incomplete while octets are missing
+    import wrapper
     P = hirq.Body(f, f.body('lber::parse::Parser::parse'))
-    pouts = absx.Interp(f, P).run()
-    ok = False
-    for o in pouts:
-        emp = next((t for a, t in o.st.pc if a[0] == 'call' and a[1].endswith('::is_empty') and a[2][0] == ('param', 'input')), None)
-        if emp is True:
-            ok = o.val[0] == 'ctor' and o.val[1] == 'Err' and o.val[2][0][0] == 'ctor' and o.val[2][0][1].endswith('Err::Incomplete')
-    ctx.add('G3.empty-buffer-is-incomplete', 'Parser::parse', loc(P.root), ok, 'an empty buffer must be reported as Incomplete')
+    ctx.analysed['bodies'].add(P.path)
+    wrapper.check_parser_entry(ctx, f, P, 'lber::parse::parse_tag', 'G3')
 
     # ---- G4 no cross-call state
     codec = f.items.get('ldap3::protocol::LdapCodec')
@@ -147,7 +146,6 @@ def run(ctx):
     dec = [it['path'] for it in f.items_all if it.get('kind') == 'AssocFn' and it.get('impl_trait_def') == 'tokio_util::codec::decoder::Decoder' and it['path'].endswith('::decode')]
     D = hirq.Body(f, f.body(anchors.one('Decoder::decode', dec)))
     ctx.analysed['bodies'].add(D.path)
-    import wrapper
     if not fields:
         ctx.ok('G4.stateless-codec', 'LdapCodec', '', 'the codec has no fields in this configuration')
         if D.path == dp:
